@@ -23,6 +23,9 @@ WORK = Path(os.environ.get("VERIF_WORK", ROOT / ".work"))
 JAR = "/opt/veriftools/tla/tla2tools.jar:/opt/veriftools/tla/CommunityModules-deps.jar"
 
 
+COVERAGE = False      # thorough tier: run the exhaustive models with -coverage 1 and report per-action counts (vacuity evidence)
+
+
 class MachineryError(RuntimeError):
     """TLC could not give a verdict (parse error, crash, time-out, unexpected output)."""
 
@@ -69,8 +72,9 @@ def run(spec: str, cfg: str, *, env: dict[str, str] | None = None, workers: int 
     opts = ["-XX:+UseParallelGC", f"-Xmx{heap}"]
     if deque:
         opts.append("-Dtlc2.tool.queue.IStateQueue=StateDeque")
+    cov = ["-coverage", "1"] if (COVERAGE and "_mc" in cfg and "-simulate" not in (extra or [])) else []
     cmd = ["java", *opts, "-cp", JAR, "tlc2.TLC", "-workers", str(workers), "-metadir", str(wd / "meta"),
-           "-noGenerateSpecTE", "-config", cfg, *(extra or []), spec]
+           "-noGenerateSpecTE", "-config", cfg, *cov, *(extra or []), spec]
     t0 = time.time()
     try:
         p = subprocess.run(cmd, cwd=SPEC, env=e, capture_output=True, text=True, timeout=timeout)
